@@ -254,6 +254,7 @@ func (r *batcher) Enqueue(op Operation) error {
 
 	// increment the target
 	r.incTarget(int(op.Cost()))
+	verifPoint("enqueue:counted", op)
 
 	// put into the buffer
 	return r.buffer.enqueue(op, r.errorOnFullBuffer)
